@@ -143,8 +143,13 @@ namespace
         auto arr = right.data<d_array>();
         std::array<float, 3> pos {0, 0, 0};
         std::string name;
-        if (arr->check_type(runtime, std::array<type, 2> { t_string(), t_object()}))
+        // [name, object] or [name, [x, y(, z)]]: the kind of the second element decides which form is checked (and complained about)
+        if (arr->size() == 2 && arr->at(1).is<t_object>())
         {
+            if (!arr->check_type(runtime, std::array<type, 2> { t_string(), t_object()}))
+            {
+                return {};
+            }
             name = arr->at(0).data<d_string, std::string>();
             auto objdata = arr->at(1).data<d_object>();
             if (objdata->is_null())
@@ -161,16 +166,16 @@ namespace
         {
             name = arr->at(0).data<d_string, std::string>();
             auto tmpArr = arr->at(1).data<d_array>();
+            if (!tmpArr->check_type(runtime, t_scalar(), 2, 3))
+            {
+                return {};
+            }
             pos = std::array<float, 3>
             {
                 tmpArr->at(0).data<d_scalar, float>(),
                 tmpArr->at(1).data<d_scalar, float>(),
                 tmpArr->size() > 2 ? tmpArr->at(2).data<d_scalar, float>() : 0
             };
-            if (!arr->check_type(runtime, t_scalar(), 2, 3))
-            {
-                return {};
-            }
         }
         else
         {
@@ -182,8 +187,10 @@ namespace
             runtime.__logmsg(err::ReturningEmptyString(runtime.context_active().current_frame().diag_info_from_position()));
             return "";
         }
-        auto& marker = runtime.storage<sqf::operators::markers_storage>().at(name);
+        // the marker does not exist yet: create it (at() only finds existing ones)
+        sqf::operators::markers_storage::marker marker;
         marker.set_pos(pos);
+        runtime.storage<sqf::operators::markers_storage>().set(name, marker);
         return name;
     }
     value deletemarker_string(runtime& runtime, value::cref right)
